@@ -475,9 +475,89 @@ def c13_interpreter_flags(res):
                 break
 
 
+def c13_after_wellformed(res, rng):
+    """Malformed calls built from objects the library has already seen and accepted: the same rating objects right after well-formed
+    rate / predict calls on them, and the very list object that rate() returned, damaged in place.  Rejection must not depend on what was
+    accepted before, nor on where a container came from."""
+    for kind in KINDS:
+        M = MODEL_CLS[kind]
+        for rep in range(size(res, 6, 30)):
+            model = M()
+            n = rng.randint(2, 4)
+            teams = [[model.rating(mu=rng.gauss(25, 5), sigma=rng.uniform(2, 8)) for _ in range(rng.randint(1, 3))] for _ in range(n)]
+            foreign = MODEL_CLS[KINDS[(KINDS.index(kind) + 1 + rep % 4) % 5]]().rating()
+            try:
+                model.predict_win(teams); model.predict_draw(teams); model.predict_rank(teams)
+                returned = model.rate(teams, ranks=list(range(n)))
+                model.predict_win(returned); model.predict_rank(returned)
+            except Exception as e:  # noqa: BLE001
+                res.fail("property", "C13: %s: a well-formed sequence of calls raised %s" % (kind, type(e).__name__), dict(type="c13seq", kind=kind)); break
+            flat = [p for t in returned for p in t]
+
+            def damaged(base):
+                """(description, argument, undo) — `base` is damaged IN PLACE where possible and repaired afterwards"""
+                out = []
+                out.append(("outer tuple of the same teams", tuple(base), None))
+                out.append(("a generator over the same teams", (t for t in base), None))
+                t1 = base[1]
+
+                def mk(i, val):
+                    old = base[i]
+                    base[i] = val
+                    return lambda: base.__setitem__(i, old)
+                out.append(("team 1 replaced by a tuple of its players", base, (1, tuple(t1))))
+                out.append(("team 0 emptied", base, (0, [])))
+                out.append(("team 1 replaced by a bare rating", base, (1, t1[0])))
+                out.append(("a foreign model's rating in team 0", base, (0, [foreign] + list(base[0][1:]))))
+                out.append(("None in team 1", base, (1, list(t1) + [None])))
+                out.append(("a float where a player should be", base, (1, [25.0])))
+                return out
+            for label, container in (("the caller's own list after well-formed calls", teams), ("the list object returned by rate()", returned)):
+                for desc, arg, patch in damaged(container):
+                    for opname in ("rate", "predict_win", "predict_draw", "predict_rank"):
+                        old = None
+                        if patch is not None:
+                            old = container[patch[0]]
+                            container[patch[0]] = patch[1]
+                        if desc.startswith("a generator"):
+                            arg = (t for t in container)
+                        before = [(p.mu, p.sigma) for p in flat]
+                        mdict = {k_: v_ for k_, v_ in model.__dict__.items()}
+                        res.count("malformed_after_wellformed_calls")
+                        try:
+                            getattr(model, opname)(arg)
+                            res.fail("property", "C13: %s.%s accepted %s (%s)" % (kind, opname, desc, label), dict(type="c13seq", kind=kind))
+                        except (TypeError, ValueError):
+                            pass
+                        except Exception as e:  # noqa: BLE001
+                            res.fail("property", "C13: %s.%s on %s (%s) raised %s, not TypeError/ValueError" % (kind, opname, desc, label, type(e).__name__),
+                                     dict(type="c13seq", kind=kind))
+                        finally:
+                            if patch is not None:
+                                container[patch[0]] = old
+                        if [(p.mu, p.sigma) for p in flat] != before or {k_: v_ for k_, v_ in model.__dict__.items()} != mdict:
+                            res.fail("property", "C13: %s.%s rejected %s (%s) but a rating or a model attribute was modified" % (kind, opname, desc, label),
+                                     dict(type="c13seq", kind=kind))
+                # truncated to one team, in place
+                one = container[1:]
+                del container[1:]
+                for opname in ("rate", "predict_win", "predict_draw", "predict_rank"):
+                    try:
+                        getattr(model, opname)(container)
+                        res.fail("property", "C13: %s.%s accepted a single team (%s, cut down in place)" % (kind, opname, label), dict(type="c13seq", kind=kind))
+                    except (TypeError, ValueError):
+                        pass
+                    except Exception as e:  # noqa: BLE001
+                        res.fail("property", "C13: %s.%s on a single team (%s) raised %s" % (kind, opname, label, type(e).__name__), dict(type="c13seq", kind=kind))
+                container.extend(one)
+            if len(res.failures) > 10:
+                return
+
+
 def c13(res):
     rng = random.Random(res.seed)
     c13_shared_ids(res)
+    c13_after_wellformed(res, rng)
     if res.shard == 0:
         c13_number_subclasses(res)
         c13_user_classes(res)
@@ -919,6 +999,38 @@ def c18(res):
         if (snap == live) is not False or (snap != live) is not True or (copy.deepcopy(live) == live) is not True:
             res.fail("property", "C18: %s: == between a snapshot and the updated rating of the same player does not follow (mu, sigma)" % kind,
                      dict(type="c18snap", kind=kind))
+        # a live rating and an earlier snapshot of it (same id, other values) are ordered by THEIR OWN ordinals, whichever is asked first
+        for first in ("live", "snap"):
+            live = R(25.0, 8.0, "p"); snap = copy.deepcopy(live)
+            snap.ordinal(); live.ordinal()
+            live.mu += 2.5; live.sigma = 7.0
+            seq = (live.ordinal(), snap.ordinal()) if first == "live" else (snap.ordinal(), live.ordinal())[::-1]
+            facts = (seq, snap < live, live > snap, live <= snap, snap >= live, sorted([live, snap])[0] is snap, snap == live)
+            if facts != ((27.5 - 21.0, 25.0 - 24.0), True, True, False, False, True, False):
+                res.fail("property", "C18: %s: a rating and an earlier snapshot of it (same id) are not ordered by their own ordinals (asked %s first): %r" % (kind, first, facts),
+                         dict(type="c18snap", kind=kind))
+        # ratings that were looked at (ordinal, comparisons, sorting) by a gamma callback WHILE a game was being rated, then updated by that game
+        M_ = MODEL_CLS[kind]
+        dflt = M_().gamma
+
+        def peeking(c, k_, mu, s2, team, rank, _d=dflt):
+            sorted(team); [p.ordinal() for p in team]; [p.ordinal(1.0) for p in team]
+            return _d(c, k_, mu, s2, team, rank)
+        mdl = M_(gamma=peeking)
+        tms = [[mdl.rating(mu=m, sigma=abs(s) + 0.5) for (m, s) in pts[i:i + 2]] for i in range(0, 6, 2)]
+        for t in tms:
+            for p in t:
+                p.ordinal()
+        try:
+            outg = mdl.rate(tms, ranks=[2, 1, 3])
+            flatg = [p for t in outg for p in t]
+            bad = [p for p in flatg if p.ordinal() != p.mu - 3.0 * p.sigma]
+            ordr = sorted(flatg)
+            if bad or any(a.mu - 3.0 * a.sigma > b.mu - 3.0 * b.sigma for a, b in zip(ordr, ordr[1:])):
+                res.fail("property", "C18: %s: after a game whose gamma callback looked at the players' ordinals, ordinal() / sorting no longer follow mu - 3 sigma" % kind,
+                         dict(type="c18peek", kind=kind))
+        except Exception as e:  # noqa: BLE001
+            res.fail("property", "C18: %s: rating a game with a gamma callback that sorts the team raised %s" % (kind, type(e).__name__), dict(type="c18peek", kind=kind))
         rs = [R(m, s) for (m, s) in pts]
         for r in rs[::2]:
             r.ordinal(1.0)          # a display query with a non-default z before sorting
@@ -1457,8 +1569,53 @@ def c20_item(res, item):
     c20_league(res, rng, kind, [])
 
 
+def c20_store_aliasing(res, rng):
+    """A store of plain [mu, sigma] lists: a rating built from such a list holds the VALUES, it is not a view of the list; and a player
+    meeting an earlier snapshot of itself (deepcopy keeps the id) in one lobby is predicted exactly like two rebuilt players."""
+    for kind in KINDS:
+        model = MODEL_CLS[kind]()
+        for rep in range(size(res, 4, 20)):
+            store = {"a": [rng.gauss(25, 6), rng.uniform(2, 8)], "b": [rng.gauss(25, 6), rng.uniform(2, 8)], "c": [rng.gauss(25, 6), rng.uniform(2, 8)]}
+            keep = {k_: list(v_) for k_, v_ in store.items()}
+            players = {k_: model.create_rating(v_, k_) for k_, v_ in store.items()}
+            res.count("store_aliasing_probes")
+            try:
+                out = model.rate([[players["a"]], [players["b"]], [players["c"]]], ranks=[2, 1, 3])
+            except Exception as e:  # noqa: BLE001
+                res.fail("property", "C20: %s: rating players built by create_rating raised %s" % (kind, type(e).__name__), dict(type="c20alias", kind=kind)); break
+            if {k_: list(v_) for k_, v_ in store.items()} != keep:
+                res.fail("property", "C20: %s: rating a player built by create_rating(values) rewrote the caller's values list %r -> %r" % (kind, keep, store),
+                         dict(type="c20alias", kind=kind)); break
+            store["a"][0] += 5.0; store["a"][1] *= 0.5
+            if (players["a"].mu, players["a"].sigma) != (out[0][0].mu, out[0][0].sigma) or (out[0][0].mu == store["a"][0]):
+                res.fail("property", "C20: %s: editing the list a rating was created from changed the rating" % kind, dict(type="c20alias", kind=kind)); break
+            # rebuild twice from the (unchanged) stored values of b: both rebuilds hold exactly those values
+            r1, r2 = model.create_rating(store["b"], "b"), model.create_rating(store["b"], "b")
+            if (r1.mu, r1.sigma, r2.mu, r2.sigma) != (keep["b"][0], keep["b"][1], keep["b"][0], keep["b"][1]):
+                res.fail("property", "C20: %s: two rebuilds from the same stored values differ from them: %r %r vs %r" % (
+                    kind, (r1.mu, r1.sigma), (r2.mu, r2.sigma), keep["b"]), dict(type="c20alias", kind=kind)); break
+            # snapshot vs live: same id, different values, in one lobby of >= 3 teams
+            live = [model.rating(mu=rng.gauss(25, 6), sigma=rng.uniform(2, 8), name="p%d" % i) for i in range(3)]
+            snaps = copy.deepcopy(live)
+            try:
+                model.rate([[live[0]], [live[1]], [live[2]]], ranks=[1, 2, 3])
+                lobby = [[live[0]], [snaps[0]], [live[1], snaps[2]], [snaps[1]]]
+                got = (model.predict_win(lobby), model.predict_draw(lobby), model.predict_rank(lobby))
+                fresh = MODEL_CLS[kind]()
+                rebuilt = [[fresh.rating(mu=p.mu, sigma=p.sigma) for p in t] for t in lobby]
+                want = (fresh.predict_win(rebuilt), fresh.predict_draw(rebuilt), fresh.predict_rank(rebuilt))
+                got2 = model.rate([list(t) for t in copy.deepcopy(lobby)], ranks=[1, 2, 3, 4])
+                want2 = fresh.rate(rebuilt, ranks=[1, 2, 3, 4])
+            except Exception as e:  # noqa: BLE001
+                res.fail("property", "C20: %s: a lobby holding players and earlier snapshots of them raised %s" % (kind, type(e).__name__), dict(type="c20alias", kind=kind)); break
+            if got != want or [[(p.mu, p.sigma) for p in t] for t in got2] != [[(p.mu, p.sigma) for p in t] for t in want2]:
+                res.fail("property", "C20: %s: a lobby holding players next to earlier snapshots of them (same ids, other values) is not predicted / rated like "
+                         "players rebuilt from the same values: %r vs %r" % (kind, got, want), dict(type="c20alias", kind=kind)); break
+
+
 def c20(res):
     rng = random.Random(res.seed)
+    c20_store_aliasing(res, rng)
     seen = set()
     for kind in KINDS:
         res.case(dict(kind=kind, what="constructors"))
